@@ -97,6 +97,15 @@ def collect():
         for cat in cats:
             rows.append({"kind": "dtype", "backend": "numpy", "dtype": t.__name__, "cls": cls, "cat": cat,
                          "res": check(arr, np.ndarray, cat)})
+    # the same dtypes in the NON-native byte order (data read from a foreign file): byte order is not part of the category
+    for base in (np.int16, np.int32, np.int64, np.uint16, np.uint32, np.uint64, np.float16, np.float32, np.float64,
+                 np.complex64, np.complex128):
+        dt = np.dtype(base).newbyteorder()
+        arr = np.zeros(2, dtype=dt)
+        cls = classify_np(np.dtype(base))
+        for cat in cats:
+            rows.append({"kind": "dtype", "backend": "numpy-byteswapped", "dtype": dt.str, "cls": cls, "cat": cat,
+                         "res": check(arr, np.ndarray, cat)})
     # structured dtype
     st = np.dtype([("first", np.uint8), ("second", np.int8)])
     arr = np.zeros(2, dtype=st)
@@ -207,14 +216,25 @@ def collect():
     from jaxtyping import AbstractDtype
 
     def user(strings, patterns):
-        spec = list(strings) + [re.compile(re.escape(p["s"]) + ("$" if p["kind"] == "full" else "")) for p in patterns]
+        # the second, fourth ... pattern is written in upper case and compiled with re.IGNORECASE (dtype names are lower case),
+        # the third with re.VERBOSE and a comment: a pattern's flags are part of it
+        def comp(i, p):
+            body = re.escape(p["s"]) + ("$" if p["kind"] == "full" else "")
+            if i % 3 == 1:
+                return re.compile(body.upper(), re.IGNORECASE)      # (the names used here contain no character that re.escape changes)
+            if i % 3 == 2:
+                return re.compile(body + "  # the dtype name", re.VERBOSE)
+            return re.compile(body)
+        spec = list(strings) + [comp(i, p) for i, p in enumerate(patterns)]
 
         class U(AbstractDtype):
             dtypes = spec if len(spec) != 1 else spec[0]
         return U
     ucats = [(["uint8", "uint16"], []), (["float32"], []), ([], [{"kind": "prefix", "s": "int"}]),
              ([], [{"kind": "full", "s": "int8"}]), (["bool"], [{"kind": "prefix", "s": "float8"}]),
-             ([], [{"kind": "prefix", "s": "int3"}, {"kind": "full", "s": "uint8"}]), (["my_dtype"], [])]
+             ([], [{"kind": "prefix", "s": "int3"}, {"kind": "full", "s": "uint8"}]), (["my_dtype"], []),
+             ([], [{"kind": "prefix", "s": "float8"}, {"kind": "prefix", "s": "int"}, {"kind": "full", "s": "uint32"}]),
+             (["bool"], [{"kind": "full", "s": "int64"}, {"kind": "prefix", "s": "uint1"}])]
     names = ["uint8", "uint16", "int8", "int32", "int64", "float32", "float8_e4m3fn", "bool", "uint32", "my_dtype", "int", "xint8"]
     for strings, patterns in ucats:
         U = user(strings, patterns)
